@@ -41,6 +41,13 @@ def gen(ctx, tier, rng):
             continue
         mn = (1 << 32) % n if n >= 2 else 0
         scripts = [[rng.getrandbits(32)], [mn], [max(mn - 1, 0), mn], [max(mn - 1, 0), 0, mn + 1 if mn + 1 < (1 << 32) else mn], [(1 << 32) - 1], [0, (1 << 32) - 1]]
+        # accepted draws at the boundaries of the reduction itself: n-1, n, n+1, 2n-1, 2n, the largest multiple of n, 2^32-1
+        if n >= 2:
+            for dv in (n - 1, n, n + 1, 2 * n - 1, 2 * n, ((1 << 32) // n) * n - 1, ((1 << 32) // n) * n - n, (1 << 32) - 1):
+                if mn <= dv < (1 << 32):
+                    scripts.append([dv])
+                    if mn > 0:
+                        scripts.append([mn - 1, dv])
         if mn > 0:
             run = [rng.randrange(0, mn) for _ in range(rng.choice([3, 17, 60]))]
             scripts.append(run + [rng.randrange(mn, 1 << 32)] + [5])
